@@ -1,9 +1,12 @@
 #!/bin/sh
 # usage: tools_mut.sh <patch.diff> <prop> [tier]   -- apply a seeded change to /repo, run the check, always undo
+# (the evidence file of the unchanged tree is kept: evidence written while a seeded change is applied is discarded)
 P="$1"; ID="$2"; TIER="${3:-quick}"
 cd /verif
+cp evidence/$ID.json /var/tmp/evidence_$ID.keep 2>/dev/null
 git -C /repo apply "$P" || { echo "patch does not apply"; exit 9; }
 ./check "$ID" --tier "$TIER"; RC=$?
 git -C /repo checkout -- .
+cp /var/tmp/evidence_$ID.keep evidence/$ID.json 2>/dev/null
 echo "rc=$RC"
 exit $RC
